@@ -133,15 +133,23 @@ class Harness:
         return [mid for mid, _ in self.log]
 
 
-def render_params(m, is_method):
+def render_params(m, is_method, spelling=None):
     mid = m["id"]
+    spelling = spelling or {}
+
+    def ann_text(p):
+        sp = spelling.get(f"{mid}_{p['name']}") or {}
+        if p.get("ann") is None or sp.get("wrap") == "missing":
+            return ""
+        if sp.get("wrap") == "string":
+            return f": \"A{mid}_{p['name']}\""
+        return f": A{mid}_{p['name']}"
+
     parts = ["self"] if is_method else []
     pos = m["pos"]
     last_posonly = max((i for i, p in enumerate(pos) if p.get("posonly")), default=-1)
     for i, p in enumerate(pos):
-        s = p["name"]
-        if p.get("ann") is not None:
-            s += f": A{mid}_{p['name']}"
+        s = p["name"] + ann_text(p)
         if p.get("opt"):
             s += f" = D{mid}_{p['name']}"
         parts.append(s)
@@ -150,9 +158,7 @@ def render_params(m, is_method):
     if m.get("kw"):
         parts.append("*")
         for p in m["kw"]:
-            s = p["name"]
-            if p.get("ann") is not None:
-                s += f": A{mid}_{p['name']}"
+            s = p["name"] + ann_text(p)
             if p.get("opt"):
                 s += f" = D{mid}_{p['name']}"
             parts.append(s)
@@ -177,10 +183,10 @@ def render_site(m, k, site, is_method):
     return f"    if _a[0] == {k + 1}: return _H.leave({m['id']}, {call})"
 
 
-def render_method(m, is_method, name=None, indent="", decorators=()):
+def render_method(m, is_method, name=None, indent="", decorators=(), spelling=None):
     mid = m["id"]
     lines = [f"{indent}{d}" for d in decorators]
-    lines.append(f"{indent}def {name or 'm%d' % mid}({render_params(m, is_method)}):")
+    lines.append(f"{indent}def {name or 'm%d' % mid}({render_params(m, is_method, spelling)}):")
     body = [f"    _a = _H.enter({mid}, locals())"]
     for k, site in enumerate(m.get("sites") or []):
         body.append(render_site(m, k, site, is_method))
@@ -247,10 +253,10 @@ class Program:
             for mid in order:
                 m = self.by_id[mid]
                 decos = [f"@ovld(priority={m.get('prio', 0)})", f"@_H.reg({mid})"]
-                parts.append(render_method(m, True, name="f", indent="    ", decorators=decos))
+                parts.append(render_method(m, True, name="f", indent="    ", decorators=decos, spelling=spelling))
             src = "\n".join(parts) + "\n"
         else:
-            src = "\n\n".join(render_method(m, self.is_method) for m in self.methods) + "\n"
+            src = "\n\n".join(render_method(m, self.is_method, spelling=spelling) for m in self.methods) + "\n"
         self.src = src
         self.fname = install_source(src)
         self.glb = glb
